@@ -410,12 +410,24 @@ func runC01(c *Ctx) {
 		src, st := GenProgram(c.Rng, o)
 		cases = append(cases, c01Case{name: fmt.Sprintf("gen%d", i), src: src, stats: st})
 	}
+	// plain programs (no map call, no `disabled`): the fragment on which the two-phase
+	// resolver model is PROVED to refine den; run under Tier A for the run-time tie
+	nPlain, nStaticOnly := 36, 400
+	if c.Thorough {
+		nPlain, nStaticOnly = 400, 4000
+	}
+	for i := 0; i < nPlain; i++ {
+		src, st := GenProgram(c.Rng, GenOpts{NoMap: true, NoDisable: true, MaxDepth: 1 + i%3, MaxCalls: 2 + i%4})
+		cases = append(cases, c01Case{name: fmt.Sprintf("plain%d", i), src: src, stats: st})
+	}
 	var specs []*TASpec
 	for ci := range cases {
 		scheds := c01Schedules(c.Seed, ci)
 		n := nSched
 		if cases[ci].corpus {
 			n = 3
+		} else if strings.HasPrefix(cases[ci].name, "plain") && !c.Thorough {
+			n = 1 // the plain stream is there for the model tie, not for schedule coverage
 		}
 		for si := 0; si < n; si++ {
 			s := scheds[si]
@@ -587,6 +599,48 @@ func runC01(c *Ctx) {
 				}
 			}
 		}
+	}
+	// ---- the two-phase resolver model against the code (c01_static.go) ----
+	{
+		t0 := time.Now()
+		staticReported := map[string]int{}
+		var ran []c01StaticCase
+		seenSrc := map[string]bool{}
+		for ci := range cases {
+			cs := &cases[ci]
+			for _, si := range cs.specs {
+				res := results[si]
+				if res == nil || res.Final != "complete" || res.Unsupp != "" || res.Relaunch > 0 || res.Program == "" {
+					continue
+				}
+				if res.CGErr != "" {
+					r.hist("static:call-graph-error")
+					continue
+				}
+				if res.CallGraph == "" || seenSrc[cs.src] {
+					continue
+				}
+				obs, an := c01Obs(res)
+				if len(an) > 0 {
+					continue
+				}
+				seenSrc[cs.src] = true
+				ran = append(ran, c01StaticCase{name: specs[si].Name, src: cs.src, prog: res.Program, cg: res.CallGraph, obs: obs})
+			}
+		}
+		c01StaticCheck(c, ran, "tierA", staticReported)
+		var only []c01StaticCase
+		for i := 0; i < nStaticOnly; i++ {
+			src, _ := GenProgram(c.Rng, GenOpts{NoMap: true, NoDisable: true, MaxDepth: 1 + i%4, MaxCalls: 1 + i%5})
+			prog, cg, err := c01CompileStatic(src)
+			if err != nil {
+				r.hist("static:compiled:rejected-or-unsupported")
+				continue
+			}
+			only = append(only, c01StaticCase{name: fmt.Sprintf("static%d", i), src: src, prog: prog, cg: cg})
+		}
+		c01StaticCheck(c, only, "compiled", staticReported)
+		r.note("two-phase model tie: %d plain programs with a Tier-A run, %d compiled only, %.1fs", len(ran), len(only), time.Since(t0).Seconds())
 	}
 	c01UnreadableChunkOuts(c, specs, results, parallel)
 	r.note("total %.1fs; shrinks performed: %d", time.Since(start).Seconds(), shrinks)
